@@ -185,6 +185,16 @@ var mandatoryRoles = map[string]bool{
 	"ExprStaticPropertyFetch.Prop": true, "StmtThrow.Expr": true, "StmtStaticVar.Expr": true, "StmtProperty.Expr": true, "StmtGoto.Label": true,
 }
 
+// lastOfList: separated lists that admit no trailing separator in PHP <= 7.4 — deleting the LAST element of a list
+// of two or more leaves "x ," in front of the closer (parameter and closure-use lists got their trailing comma in
+// PHP 8.0; call arguments, unset and isset in 7.3, so they are not in the list; arrays and list() always had it).
+var lastOfList = map[string]bool{
+	"StmtFunction.Params": true, "ExprClosure.Params": true, "StmtClassMethod.Params": true, "ExprArrowFunction.Params": true, "ExprClosure.Uses": true,
+	"StmtClass.Implements": true, "StmtInterface.Extends": true, "StmtGlobal.Vars": true, "StmtStatic.Vars": true, "StmtEcho.Exprs": true,
+	"StmtConstList.Consts": true, "StmtClassConstList.Consts": true, "StmtPropertyList.Props": true, "StmtTraitUse.Traits": true,
+	"StmtFor.Init": true, "StmtFor.Cond": true, "StmtFor.Loop": true, "StmtDeclare.Consts": true, "StmtCatch.Types": true,
+}
+
 // MandSpan is one deletable mandatory operand: the tokens [From, To) of the program's token sequence.
 type MandSpan struct {
 	Rule     string
@@ -199,9 +209,13 @@ func MandatorySpans(root *Node) []MandSpan {
 	var rec func(n *Node)
 	rec = func(n *Node) {
 		role := map[*Node]string{}
+		lastIn := map[*Node]string{}
 		for _, k := range n.Kids {
 			if !k.List && k.N != nil {
 				role[k.N] = k.Role
+			}
+			if k.List && len(k.L) >= 2 && lastOfList[n.Kind+"."+k.Role] {
+				lastIn[k.L[len(k.L)-1]] = k.Role
 			}
 		}
 		for _, p := range n.Parts {
@@ -214,6 +228,18 @@ func MandatorySpans(root *Node) []MandSpan {
 				}
 				from := pos
 				rec(v)
+				if lr, isLast := lastIn[v]; isLast && pos > from && from > 0 && pos < len(toks) {
+					ok := true
+					for i := from - 1; i <= pos && ok; i++ {
+						if toks[i].Str {
+							ok = false
+						}
+					}
+					if ok {
+						out = append(out, MandSpan{n.Kind + "." + lr + "[last]", from, pos})
+					}
+					continue
+				}
 				r, ok := role[v]
 				if !ok || pos == from {
 					continue
